@@ -192,7 +192,10 @@ class C10(Prop):
             "evaluated in one process (serially and on 4 threads; first steps repeated at the end): both signs / several spellings of one duration, "
             "one integer as many texts to both integer targets, equal values of different types (n, nu, n.0, true; -0.0/0.0), one instant at several "
             "offsets, text vs. bytes of the same content with damaged relatives, every route to the edges 0, ±2^63, 2^64, 10^18, 10^19, 2^53, "
-            "identity conversions; each step judged by the single-case oracle. non-trivial = an error outcome, "
+            "identity conversions; each step judged by the single-case oracle. MARKED TEXT: ~120 markers that some codec / reader / normaliser "
+            "treats as other than content (U+FEFF and other signatures, NUL and other terminators, line ends and blanks, U+FFFD, backslash / percent / "
+            "entity escapes, decomposed and compatibility forms, case-folding specials, format controls, plane edges) alone, first, last, doubled, at "
+            "both ends and inside ordinary text, as text and as bytes, with escaped string literals and b\"\\xNN\" literals. non-trivial = an error outcome, "
             "a value within 2^10 of a range boundary, a non-ASCII string, a timestamp before year 1000 / on a year boundary, or a non-identity composition")
 
     # ------------------------------------------------------------------------------------------
